@@ -1012,7 +1012,7 @@ def plan(chk, rng):
         # a get against an update to LONGER contents followed by an unload (the size taken before the lock is stale)
         ("get||updLonger;unl", (BIG, A, [[g(0)], [u(0, U2), x(0)]]), 2, 1200 if q else 3000),
         # first writes into a subdirectory that does not exist yet (makedirs / isdir are steps of the write tasks)
-        ("updD0||updD1-newdir", (BIG, [], [[u(100, U1)], [u(101, U2)]]), None if q else None, 1500),
+        ("updD0||updD1-newdir", (BIG, [], [[u(100, U1)], [u(101, U2)]]), 2 if q else None, 1500 if q else 3000),
         ("updD0||getD0-newdir", (BIG, [], [[u(100, U1)], [g(100)]]), 2, 300),
         # a load in flight, an update of the same file and a get of the other file under memory pressure
         ("getA||updA||getB-evict", (6, AB, [[g(0)], [u(0, U1)], [g(1)]]), 1, 1500 if q else 3000),
